@@ -492,10 +492,17 @@ def t_slow_looper_bounded(T):
     (T.ok if fails == 0 else T.fail)(f"{key}#bounded.indexing", *([] if fails == 0 else [f"{fails} of {cases} shapes wrong"]), kind="bounded")
 
 
+from .BK_backend_ops import TRUSTED as BK_TRUSTED
+TRUSTED = TRUSTED + BK_TRUSTED
+
+
 def tasks(tier):
     ts = [(c, t_fast(c)) for c in ("code0", "code1", "code2", "code4", "code4p")]
     ts.append(("code4[alpha0=2]", t_fast("code4", 2)))
     ts += [("slow", t_slow), ("get", t_get), ("lemmas", t_lemmas), ("looper-bounded", t_slow_looper_bounded)]
+    # "every backend": each backend's wrapper methods are proved to be the tensor operations the contracts above assume
+    from .BK_backend_ops import backend_op_tasks
+    ts += backend_op_tasks(tier)
     return ts
 
 
@@ -533,6 +540,9 @@ def replay(r):
     of alphas covering both extrapolation sides, the core and the breakpoints - through a HISTORY of calls with different
     alpha-set shapes (one column, three columns, one column again) on the same interpolator object"""
     meta = r.get("meta") or {}
+    if meta.get("op") and meta.get("backend"):
+        from .BK_backend_ops import replay_backend_op
+        return replay_backend_op(r)
     code = meta.get("code")
     if code is None:
         return None
